@@ -331,6 +331,21 @@ def _read_ext_region():
     return out
 
 
+def _read_reset_region():
+    """read(): everything before the section loop (which libraries and lists are re-created)"""
+    t, _ = parse('Sequence/read_seq.py')
+    r = func(t, 'read')
+    body = strip_doc(r)
+    out = []
+    for st in body:
+        if isinstance(st, ast.While):
+            break
+        out.append(st)
+    if not out or len(out) == len(body):
+        raise TranslateError('read: section loop not found')
+    return out
+
+
 SECTIONS = {'GenLabels': sec_labels}
 FP_SOURCES = {
     'Sequence.evaluate_labels': lambda: _method('Sequence/sequence.py', 'Sequence', 'evaluate_labels'),
@@ -339,6 +354,7 @@ FP_SOURCES = {
     'make_digital_output_pulse': lambda: _func('make_digital_output_pulse.py', 'make_digital_output_pulse'),
     'write.extensions': _write_ext_region,
     'read.extensions': _read_ext_region,
+    'read.reset': _read_reset_region,
 }
 FP_GROUPS = {'FP_labels': ['Sequence.evaluate_labels', 'make_label', 'make_trigger', 'make_digital_output_pulse',
-                           'write.extensions', 'read.extensions']}
+                           'write.extensions', 'read.extensions', 'read.reset']}
